@@ -319,9 +319,9 @@ impl Scenario for C07 {
 pub fn check_def() -> PropertyCheck {
   PropertyCheck {
     id: "C07",
-    scenarios: vec![Box::new(C07), Box::new(C07Feedback)],
+    scenarios: vec![Box::new(C07), Box::new(C07Feedback), Box::new(C07Threads)],
     runs: (300_000, 30_000_000),
-    rule: "case = operator (observe_on, delay d, delay_at, delay_subscription(_at), subscribe_on; local and _threads; d in {0,1,5,20}ms, instants before/at/after now) x hot timed source | cold source x executor policy (FIFO queue | any ready task may run next) x script of emit/complete/error/run-task-#k/advance/jump, then quiescence under the same policy; non-trivial = a run decision had >=2 ready tasks or the clock jumped over >=2 deadlines",
+    rule: "case = operator (observe_on, delay d, delay_at, delay_subscription(_at), subscribe_on; local and _threads; d in {0,1,5,20}ms, instants before/at/after now) x hot timed source | cold source x executor policy (FIFO queue | any ready task may run next) x script of emit/complete/error/run-task-#k/advance/jump, then quiescence under the same policy; non-trivial = a run decision had >=2 ready tasks or the clock jumped over >=2 deadlines; thread case = observe_on_threads / delay_threads over a hot source driven by an emitting thread (<=6 emits / sleeps, then complete / error / nothing) against one pool worker that takes ready tasks in wake order, under a seeded lock-level schedule",
     assumptions: vec!["the any-ready-task policy is the sequential abstraction of a multi-worker pool (tasks never run in parallel here; the thread-mode arm of C10 covers that)"],
   }
 }
@@ -467,6 +467,198 @@ impl Scenario for C07Feedback {
       reach: vec![],
       resolved: None,
       sample: format!("{} limit={} => [{}]", site, case.limit, fmt_trace(&evs)),
+    })
+  }
+}
+
+// ------------------------------------------------------------------- threads
+//
+// observe_on_threads / delay_threads on a one-worker FIFO pool: the emitting
+// thread and the worker really interleave at lock granularity; the worker takes
+// ready tasks in wake order (the reordering of the open finding needs a pool
+// that may run any ready task next, which is the DES arm's second policy).
+
+#[derive(Clone, Debug, Serialize, Deserialize, PartialEq)]
+pub enum TEv {
+  Emit,
+  Sleep(u8),
+}
+
+#[derive(Clone, Debug, Serialize, Deserialize)]
+pub struct TCase {
+  /// 0 = observe_on_threads, d > 0 = delay_threads(d * 100us)
+  delay_100us: u32,
+  script: Vec<TEv>,
+  /// 0 = no terminal, 1 = complete, 2 = error
+  terminal: u8,
+  sched: crate::threadsim::SchedSpec,
+}
+
+pub struct C07Threads;
+
+impl Scenario for C07Threads {
+  fn name(&self) -> &'static str {
+    "c07.threads"
+  }
+  fn components(&self) -> (&'static [&'static str], &'static [&'static str]) {
+    (&["observe_on_threads / delay_threads: emitting thread against one pool worker polling the scheduled tasks (MutArc locks, task handles, MultiSubscriptionThreads interleaved)"], &["one-worker FIFO pool and OS thread scheduling (baton)", "timer, clock (sim)"])
+  }
+  fn generate(&self, rng: &mut Rng, _tier: Tier) -> Value {
+    use crate::threadsim::{SchedSpec, Strategy};
+    let mut script = Vec::new();
+    for _ in 0..rng.range(1, 6) {
+      script.push(if rng.chance(2, 3) { TEv::Emit } else { TEv::Sleep(*rng.pick(&[1u8, 1, 2, 3])) });
+    }
+    let strategy = match rng.below(3) {
+      0 => Strategy::Random,
+      1 => Strategy::Seq { den: 3 },
+      _ => Strategy::Pct { d: rng.range(1, 3) as u8, k: 60 },
+    };
+    serde_json::to_value(TCase { delay_100us: *rng.pick(&[0u32, 0, 3, 10, 20]), script, terminal: rng.below(3) as u8, sched: SchedSpec::Seeded { seed: rng.next_u64(), strategy } }).unwrap()
+  }
+  fn run(&self, case: &Value) -> Result<Outcome, String> {
+    use crate::threadsim::*;
+    let case: TCase = serde_json::from_value(case.clone()).map_err(|e| e.to_string())?;
+    if case.script.len() > 10 || case.terminal > 2 || case.delay_100us > 1000 {
+      return Err("bad shape".into());
+    }
+    let shr = Shared::new();
+    let w = World::with_shared(shr.clone());
+    let log = ProbeLog::new(true);
+    let p = Probe(log.clone());
+    let hot = SubjectThreads::<Val, E>::default();
+    let ts = TSim::new(shr.clone(), &case.sched, 1, 1, 40_000);
+    ts.fifo_tasks.store(true, SeqCst);
+    let s = shared_sched();
+    let delay = Duration::from_micros(case.delay_100us as u64 * 100);
+    let sub: Box<dyn std::any::Any + Send> = ts.with_pool(|| {
+      let src = hot.clone();
+      if case.delay_100us == 0 {
+        Box::new(src.observe_on_threads(s).actual_subscribe(p)) as Box<dyn std::any::Any + Send>
+      } else {
+        Box::new(src.delay_threads(delay, s).actual_subscribe(p))
+      }
+    });
+    // (item, virtual time at which next() was invoked)
+    let emitted = std::sync::Arc::new(std::sync::Mutex::new(Vec::<(i64, u64)>::new()));
+    let term_at = std::sync::Arc::new(std::sync::Mutex::new(None::<u64>));
+    let mut bodies: Vec<Body> = Vec::new();
+    {
+      let mut hot = hot.clone();
+      let script = case.script.clone();
+      let terminal = case.terminal;
+      let emitted = emitted.clone();
+      let term_at = term_at.clone();
+      bodies.push(Box::new(move || {
+        let mut n = 0i64;
+        for op in &script {
+          match op {
+            TEv::Emit => {
+              n += 1;
+              emitted.lock().unwrap().push((n, shared().now()));
+              hot.next(Val::I(n));
+            }
+            TEv::Sleep(ms) => harness_sleep_ms(*ms as u64),
+          }
+          harness_yield("between-ops");
+        }
+        match terminal {
+          1 => {
+            *term_at.lock().unwrap() = Some(shared().now());
+            hot.complete()
+          }
+          2 => {
+            *term_at.lock().unwrap() = Some(shared().now());
+            hot.error(3)
+          }
+          _ => {}
+        }
+      }));
+    }
+    let rep = ts.run(bodies);
+    let recs = log.records();
+    let got: Vec<Ev> = recs.iter().map(|r| r.ev.clone()).collect();
+    let em = emitted.lock().unwrap().clone();
+    let site = format!("{} (threads, one FIFO worker)", if case.delay_100us == 0 { "ObserveOn" } else { "Delay" });
+    let d_ns = case.delay_100us as u64 * 100_000;
+    let mut violation: Option<Violation> = None;
+    let mut bad = |rule: &str, detail: String| {
+      if violation.is_none() {
+        violation = Some(Violation { rule: rule.into(), site: site.clone(), detail });
+      }
+    };
+    if let Some(d) = &rep.deadlock {
+      bad("c07.deadlock", d.clone());
+    } else if rep.budget_overrun {
+      bad("c07.livelock", "step budget exhausted".into());
+    } else if let Some((t, m)) = rep.panics.first() {
+      bad("c07.panic", format!("thread {} panicked: {}", t, m));
+    } else if log.overlap.load(SeqCst) {
+      bad("c07.overlap", "the subscriber was entered on two threads at once".into());
+    } else if let Some(i) = grammar_violation(&got) {
+      bad("c07.grammar", format!("event #{} after terminal: [{}]", i, fmt_trace(&got)));
+    } else {
+      let items: Vec<i64> = got.iter().filter_map(|e| if let Ev::Next(Val::I(i)) = e { Some(*i) } else { None }).collect();
+      let want: Vec<i64> = em.iter().map(|(i, _)| *i).collect();
+      if items.windows(2).any(|w| w[0] >= w[1]) || items.iter().any(|i| !want.contains(i)) {
+        bad("c07.order", format!("source emitted {:?}, delivered [{}]", want, fmt_trace(&got)));
+      }
+      for r in &recs {
+        if let Ev::Next(Val::I(i)) = &r.ev {
+          if let Some((_, t0)) = em.iter().find(|(x, _)| x == i) {
+            if r.t < t0 + d_ns {
+              bad("c07.early", format!("item {} produced at {}us was delivered at {}us, configured delay {}us", i, t0 / 1000, r.t / 1000, d_ns / 1000));
+            }
+          }
+        }
+      }
+      // every thread has returned and a 100 ms virtual horizon has passed
+      match case.terminal {
+        1 => {
+          if items != want {
+            bad("c07.items-lost", format!("the source completed after {:?}; delivered [{}]", want, fmt_trace(&got)));
+          } else if got.last() != Some(&Ev::Complete) {
+            bad("c07.terminal-missing", format!("the source completed; delivered [{}]", fmt_trace(&got)));
+          }
+        }
+        2 => {
+          if !want.starts_with(&items) {
+            bad("c07.order", format!("the source failed after {:?}; delivered [{}] is not a prefix", want, fmt_trace(&got)));
+          } else if got.last() != Some(&Ev::Err(3)) {
+            bad("c07.terminal-missing", format!("the source failed; delivered [{}]", fmt_trace(&got)));
+          }
+        }
+        _ => {
+          if items != want {
+            bad("c07.items-lost", format!("the source emitted {:?} and every task had time to run; delivered [{}]", want, fmt_trace(&got)));
+          } else if got.iter().any(|e| e.is_terminal()) {
+            bad("c07.unexpected-terminal", format!("[{}]", fmt_trace(&got)));
+          }
+        }
+      }
+    }
+    let mut resolved = case.clone();
+    resolved.sched = SchedSpec::Explicit(rep.decisions.clone());
+    let mut h = rep.trace_hash;
+    for r in &recs {
+      h = hash_mix(h, hash_str(&fmt_ev(&r.ev)) ^ r.t);
+    }
+    let sim = shr.now();
+    let _ = std::panic::catch_unwind(std::panic::AssertUnwindSafe(|| {
+      drop(sub);
+      drop(hot);
+      drop(w);
+    }));
+    Ok(Outcome {
+      violation,
+      trace_hash: h,
+      nontrivial: rep.multi_choice > 0,
+      sim_ns: sim,
+      steps: rep.steps,
+      faults: vec![("preemption_at_lock_point", rep.preemptions), ("lock_contention", rep.contentions)],
+      reach: vec![("try_lock_contention_observed", (rep.contentions > 0) as u64)],
+      resolved: Some(serde_json::to_value(resolved).unwrap()),
+      sample: format!("{} d={}us script={:?} terminal={} decisions={} => {}", site, d_ns / 1000, case.script, case.terminal, rep.decisions.len(), recs.iter().map(|r| format!("{}@{}us/t{}", fmt_ev(&r.ev), r.t / 1000, r.tid)).collect::<Vec<_>>().join(" ")),
     })
   }
 }
